@@ -100,16 +100,21 @@ Definition run_dep (op : string) (a : list str) : option str :=
     Some (match D3.parse (g 0) with
           | D3.Ok d => lit "ok " ++ hx (D3.dep_string d) ++ sp1 ++ show_dres (D3.parse (D3.dep_string d))
           | _ => lit "err" end)
-  else if op =? "aparse" then Some (show_arch (A1.parse_arch (g 0)))
+  else if op =? "aparse" then Some (match A1.parse_arch_opt (g 0) with Some x => show_arch x | None => lit "err" end)
   else if op =? "alist" then
     (* dependency.ParseArchitectures: split on single blanks, trim " \t\n\r", skip empty items *)
-    Some (lit "ok " ++ show_list (fun x => lit "( " ++ show_arch (A1.parse_arch x) ++ lit " )")
-            (filter (fun x => negb (D3.seq x []))
-               (map (CX.trim_set [" "%char; ascii_of_nat 9; ascii_of_nat 10; ascii_of_nat 13]) (GS.split " "%char (g 0)))))
+    (let els := filter (fun x => negb (D3.seq x []))
+               (map (CX.trim_set [" "%char; ascii_of_nat 9; ascii_of_nat 10; ascii_of_nat 13]) (GS.split " "%char (g 0))) in
+     Some (if forallb A1.arch_ok els
+           then lit "ok " ++ show_list (fun x => lit "( " ++ show_arch (A1.parse_arch x) ++ lit " )") els
+           else lit "err"))
   else if op =? "astring" then Some (hx (A1.arch_string (A1.mk (g 0) (g 1) (g 2))))
   else if op =? "art" then
-    let x := A1.parse_arch (g 0) in let t := A1.arch_string x in
-    Some (unwords [show_arch x; hx t; show_arch (A1.parse_arch t)])
+    Some (match A1.parse_arch_opt (g 0) with
+          | None => lit "err"
+          | Some x => let t := A1.arch_string x in
+                      unwords [show_arch x; hx t; match A1.parse_arch_opt t with Some y => show_arch y | None => lit "err" end]
+          end)
   else if op =? "ais" then
     Some (show_bool (M6.arch_is str D3.seq any_s all_s (m6arch (g 0) (g 1) (g 2)) (m6arch (g 3) (g 4) (g 5))))
   else if op =? "awild" then Some (show_bool (M6.is_wildcard str D3.seq any_s all_s (m6arch (g 0) (g 1) (g 2))))
